@@ -37,9 +37,10 @@ def main(argv):
     cases_path = os.path.join(c.work, "cases.txt")
     if c.replay:
         rp = json.load(open(c.replay))
-        with open(cases_path, "w") as f:
+        rin = os.path.join(c.work, "replay_in.txt")
+        with open(rin, "w") as f:
             f.write(rp["case"] + "\n")
-        args = [harness, "c11", "--out", c.work, "--replaycase", cases_path]
+        args = [harness, "c11", "--out", c.work, "--replaycase", rin]
     else:
         args = [harness, "c11", "--seed", str(c.seed), "--tier", c.tier, "--out", c.work]
     rc, out = vlib.run(args, timeout=1800)
